@@ -9,28 +9,41 @@ PROPERTY = "C05"
 RULE = ("standard: StandardCombi on {Trapezoidal(boundary T/F), ClenshawCurtis, GaussLegendre, Simpson, Leja, Lagrange, BSpline} grids, d 1-3, "
         "1<=lmin<=lmax<=lmin+3, vector-valued arbitrary integrand; dimadaptive: DimAdaptiveCombi (maxv=2) with drawn tolerance and point "
         "limit; dw / es: dimension-wise (all versions, rebalancing, boundary; global trapezoidal, high-order, Romberg, Lagrange and B-spline grids) and extend-split (version 0) runs driven by a scripted "
-        "decision tape and stopped cleanly by a drawn max_evaluations, with and without reevaluate_at_end. Oracle: the reported value "
+        "decision tape and stopped cleanly by a drawn max_evaluations; a third of all cases in every sub uses the box in other units (whole box or single dimensions scaled by 2^-30 .. 2^20, tolerances relative to the volume), standard trapezoidal grids also with integrator=old, with and without reevaluate_at_end. Oracle: the reported value "
         "equals sum_grids c * sum_i w_i f(p_i) recomputed from the public points and weights (per area for extend-split; "
         "grid.integrate per component for hierarchical grids), equals get_points_and_weights() applied to f (nodal grids), equals "
         "evaluate_final_combi(), and is unchanged by reevaluate_at_end. Non-trivial = (standard) d>=2 and lmax>lmin; (dimadaptive) at "
         "least one refinement; (dw/es) a stop after >=2 refinement steps of which one refined a strict subset. Distinct = distinct case dict.")
 ASSUMPTIONS = [
-    "tolerance 1e-10 * (1 + sum|w f|) per output component (sums of up to a few thousand terms)",
+    "tolerance 1e-10 * (min(1, box volume) + sum|w f|) per output component (sums of up to a few thousand terms)",
     "the independent recomputation uses only public getters (get_points_and_weights_component_grid, coarsen_grid, grid.integrate) and evaluates the integrand itself",
     "extend-split is checked in its default coarsening version 0 as stated in the property",
 ]
 
 
+_VOL = [1.0]        # volume of the current case's box: the natural magnitude of an integral of an O(1) integrand
+
+
 def _close(x, y, scale):
     x = np.asarray(x, dtype=float).ravel()
     y = np.asarray(y, dtype=float).ravel()
-    return x.shape == y.shape and bool(np.all(np.abs(x - y) <= 1e-10 * (1.0 + scale)))
+    return x.shape == y.shape and bool(np.all(np.abs(x - y) <= 1e-10 * (min(1.0, _VOL[0]) + scale)))
+
+
+def _scale_class(case):
+    s = case.get("boxscale")
+    if not s:
+        return "box-scale=unit"
+    v = drive.box_volume(case)
+    return "box-scale:volume%s" % ("<1e-8" if v < 1e-8 else (">1e8" if v > 1e8 else "-moderate"))
 
 
 def _integrand(case):
     dim = case["dim"]
-    g1 = drive.fit_to_box(drive.driver_function(dim, case["fseed"]), case["a"], case["b"])
-    g2 = drive.fit_to_box(drive.driver_function(dim, case["fseed"] + 17), case["a"], case["b"])
+    _VOL[0] = drive.box_volume(case)
+    a0, b0 = drive.unscaled_box(case)
+    g1 = drive.scaled_function(drive.fit_to_box(drive.driver_function(dim, case["fseed"]), a0, b0), case)
+    g2 = drive.scaled_function(drive.fit_to_box(drive.driver_function(dim, case["fseed"] + 17), a0, b0), case)
     comps = [g1, g2, lambda x: g1(x) * 0.25 - 2.0 * x[0]][: case.get("nout", 2)]
     return comps, drive.vector_function(comps)
 
@@ -46,9 +59,11 @@ def _wsum(comps, pts, w):
 
 
 # ---------------------------------------------------------------------------------------------------------------
-def make_local_grid(name, a, b, boundary):
+def make_local_grid(name, a, b, boundary, integrator="default"):
     from sparseSpACE import Grid as G
     if name == "trapezoidal":
+        if integrator == "old":
+            return G.TrapezoidalGrid(a, b, boundary=boundary, integrator="old")
         return G.TrapezoidalGrid(a, b, boundary=boundary)
     if name == "clenshawcurtis":
         return G.ClenshawCurtisGrid(a, b)
@@ -73,7 +88,7 @@ def run_standard(case):
     dim = case["dim"]
     a, b = np.array(case["a"]), np.array(case["b"])
     comps, f = _integrand(case)
-    grid = make_local_grid(case["grid"], a, b, case["boundary"])
+    grid = make_local_grid(case["grid"], a, b, case["boundary"], case.get("integrator", "default"))
     op = Integration(f, grid=grid, dim=dim, reference_solution=None, print_level=drive.Q, log_level=drive.Q)
     combi = StandardCombi(a, b, operation=op, print_level=drive.Q, log_level=drive.Q)
     with drive.quiet():
@@ -102,7 +117,7 @@ def run_standard(case):
         if not _close(result, t, m):
             out.bad(sub + "/points-and-weights-do-not-reproduce-result/" + case["grid"], "reported %s via weights %s" % (result, t))
     out.nontrivial = dim >= 2 and case["lmax"] > case["lmin"]
-    out.cls("grid=" + case["grid"], "d=%d" % dim)
+    out.cls("grid=" + case["grid"], "d=%d" % dim, "integrator=" + case.get("integrator", "default"), _scale_class(case))
     return out
 
 
@@ -140,7 +155,7 @@ def run_dimadaptive(case):
     if not _close(err, np.abs(result - ref), mag):
         out.bad(sub + "/reported-difference-wrong", "%s vs %s" % (err, np.abs(result - ref)))
     out.nontrivial = len(errors) >= 1 and dim >= 2
-    out.cls("grid=" + case["grid"], "refinements=%d" % min(len(errors), 5))
+    out.cls("grid=" + case["grid"], "refinements=%d" % min(len(errors), 5), _scale_class(case))
     out.info = dict(max_refinements=len(errors), max_grids=len(scheme))
     return out
 
@@ -282,7 +297,7 @@ def run_adaptive(case):
         reported, tot, mag, tag = check_stop(res, "second (after continue_adaptive_refinement)")
         # (the re-evaluation clauses below compare with a single-stage twin run and are checked in the cases without a second stage)
         out.nontrivial = st_["steps"] >= 2 and st_["strict"] >= 1
-        out.cls("version=%d" % case["version"], "steps>=2" if st_["steps"] >= 2 else "steps<2")
+        out.cls("version=%d" % case["version"], "steps>=2" if st_["steps"] >= 2 else "steps<2", _scale_class(case))
         if kind == "dw":
             out.cls("dwgrid=" + case.get("dwgrid", "trapezoidal"))
         out.info = dict(max_steps=st_["steps"], max_points=int(res[6][-1]))
@@ -309,7 +324,7 @@ def run_adaptive(case):
         else:
             out.bad(sub + "/reevaluate_at_end/differs", "%s: %s vs %s" % (tag, rep2, reported))
     out.nontrivial = st_["steps"] >= 2 and st_["strict"] >= 1
-    out.cls("version=%d" % case["version"], "steps>=2" if st_["steps"] >= 2 else "steps<2")
+    out.cls("version=%d" % case["version"], "steps>=2" if st_["steps"] >= 2 else "steps<2", _scale_class(case))
     if kind == "dw":
         out.cls("dwgrid=" + case.get("dwgrid", "trapezoidal"))
     out.info = dict(max_steps=st_["steps"], max_points=int(res[6][-1]))
@@ -327,9 +342,12 @@ def standard_strategy(tier):
         span = 3 if grid in ("trapezoidal", "simpson") else 2
         lmax = lmin + draw(st.integers(0, span if dim < 3 else 2))
         a, b = drive.st_box(draw, dim)
-        return dict(dim=dim, grid=grid, lmin=lmin, lmax=lmax, a=a, b=b,
-                    boundary=draw(st.booleans()) if grid == "trapezoidal" else True,
-                    nout=draw(st.integers(1, 3)), fseed=draw(st.integers(0, 10 ** 6)))
+        c = dict(dim=dim, grid=grid, lmin=lmin, lmax=lmax, a=a, b=b,
+                 boundary=draw(st.booleans()) if grid == "trapezoidal" else True,
+                 nout=draw(st.integers(1, 3)), fseed=draw(st.integers(0, 10 ** 6)))
+        if grid == "trapezoidal":
+            c["integrator"] = draw(st.sampled_from(["default", "default", "old"]))
+        return drive.apply_boxscale(c, drive.st_boxscale(draw, dim))
     return s()
 
 
@@ -338,9 +356,10 @@ def dimadaptive_strategy(tier):
     def s(draw):
         dim = draw(st.integers(2, 3))
         a, b = drive.st_box(draw, dim)
-        return dict(dim=dim, grid=draw(st.sampled_from(["trapezoidal", "clenshawcurtis", "gausslegendre"])), lmin=1, a=a, b=b,
-                    tol=draw(st.sampled_from([1e-2, 1e-3, 1e-4, 1e-6, 1e-8])), maxpts=draw(st.integers(30, 600)),
-                    fseed=draw(st.integers(0, 10 ** 6)))
+        c = dict(dim=dim, grid=draw(st.sampled_from(["trapezoidal", "clenshawcurtis", "gausslegendre"])), lmin=1, a=a, b=b,
+                 tol=draw(st.sampled_from([1e-2, 1e-3, 1e-4, 1e-6, 1e-8])), maxpts=draw(st.integers(30, 600)),
+                 fseed=draw(st.integers(0, 10 ** 6)))
+        return drive.apply_boxscale(c, drive.st_boxscale(draw, dim))
     return s()
 
 
@@ -358,7 +377,10 @@ def dw_strategy(tier):
             c["rebalancing"] = False
         if c["dwgrid"] in ("lagrange", "bspline"):
             c["maxev"] = min(c["maxev"], 150)
-        return c
+        sc = drive.st_boxscale(draw, c["dim"])
+        if c["dwgrid"] == "romberg" and sc is not None:
+            sc = [2.0 ** round(np.log2(x)) for x in sc]      # dyadic step widths stay dyadic
+        return drive.apply_boxscale(c, sc)
     return s()
 
 
@@ -369,7 +391,7 @@ def es_strategy(tier):
         c["nout"] = draw(st.integers(1, 2))
         c["extra"] = draw(st.sampled_from([0, 0, 1, 20, 80]))
         c["maxev"] = min(c["maxev"], 700)
-        return c
+        return drive.apply_boxscale(c, drive.st_boxscale(draw, c["dim"]))
     return s()
 
 
